@@ -12,6 +12,9 @@ re-slice outside `[0, len)` is the outcome `.panic`.  All theorems quantify over
 *every* `src : List UInt8` and every type number `t` (no bound).
 -/
 import Mqtt.Proofs.CodecWire
+import Mqtt.Proofs.CodecSpecDecode
+import Mqtt.Proofs.CodecErrCount
+import Mqtt.Proofs.CodecWireV
 import Mqtt.Proofs.XlateVarint
 import Mqtt.Proofs.XlateHeader
 
@@ -32,6 +35,14 @@ theorem decode_total (t : Nat) (src : Bytes) : decodeNew t src ≠ .panic :=
 theorem decode_count_le (t : Nat) (src : Bytes) (d : Decoded) (h : decodeNew t src = .ok d) :
     d.n ≤ src.length :=
   ((decodeNew_total t src).of_ok h).n_le
+
+/-- … and when `Decode` returns an error, the byte count that comes with it (`decodeNewErrN`: the Go
+variable `total` at the failing `return`, printed as `err n=<count>` by the harness and the model driver and
+compared on every malformed input) is not larger than the input either.  The bound holds for the count
+function on every input; the hypothesis only says when the count is what `Decode` returns. -/
+theorem C04_error_count_le (t : Nat) (src : Bytes) (_h : decodeNew t src = .err) :
+    decodeNewErrN t src ≤ src.length :=
+  decodeNewErrN_le t src
 
 /-- **Every returned field lies inside the decoded packet**: each byte-slice field
 of the decoded message is exactly the bytes `src[off : off+len]` of its view, and
@@ -56,6 +67,48 @@ theorem decode_accepts_wf (p : Wire.Packet) (hwf : Wire.WF p) (rest : Bytes) :
       d.n = (Wire.encode p).length ∧ absMsg d.msg = p :=
   accepts_wf p hwf rest
 
+/-! ### The reference decoder of the specification is complete
+
+`Wire.decode` (`Spec/Wire.lean`) is what the specification stream and the oracles use to say which byte
+strings *are* well-formed packets.  It is sound by construction (`Wire.decode_sound`: it re-encodes and
+compares); the theorems below add completeness, so it is exactly the inverse of `Wire.encode` on
+well-formed packets — `decode_accepts_wf` therefore covers every input the reference decoder accepts. -/
+
+/-- **Completeness of the reference decoder** (all 14 types): the reference encoding of a well-formed
+packet, followed by any bytes, decodes to exactly that packet and its length. -/
+theorem C04_reference_decoder_complete (p : Wire.Packet) (hwf : Wire.WF p) (rest : Bytes) :
+    Wire.decode p.type (Wire.encode p ++ rest) = some (p, (Wire.encode p).length) :=
+  spec_decode_complete p hwf rest
+
+/-- soundness + completeness: the reference decoder answers `(p, n)` exactly when the first `n` bytes of the
+input are the reference encoding of the well-formed packet `p` of the requested type. -/
+theorem C04_reference_decoder_inverse (t : Nat) (bs : Bytes) (p : Wire.Packet) (n : Nat) :
+    Wire.decode t bs = some (p, n) ↔
+      Wire.WF p ∧ p.type = t ∧ n = (Wire.encode p).length ∧ n ≤ bs.length ∧ bs.take n = Wire.encode p :=
+  spec_decode_iff t bs p n
+
+/-- … hence: whatever the reference decoder accepts, the library's decoder accepts with the same count and
+the same field values (the oracle of the `codec dec` runs, as a theorem about the model). -/
+theorem C04_decode_agrees_with_reference (t : Nat) (bs : Bytes) (p : Wire.Packet) (n : Nat)
+    (h : Wire.decode t bs = some (p, n)) :
+    ∃ d, decodeNew t bs = .ok d ∧ d.n = n ∧ absMsg d.msg = p := by
+  obtain ⟨hwf, ht, hn, hle, htake⟩ := (spec_decode_iff t bs p n).mp h
+  have hbs : bs = Wire.encode p ++ bs.drop n := by rw [← htake, List.take_append_drop]
+  obtain ⟨d, hd, hdn, habs⟩ := accepts_wf p hwf (bs.drop n)
+  rw [← hbs, ht] at hd
+  exact ⟨d, hd, by rw [hdn, hn], habs⟩
+
+/-- `decode_accepts_wf` for **every permitted form of the remaining length** (section 2.2.3 allows one to four
+bytes and does not require the shortest form; `Wire.Encodes bs p`): the packet is accepted, exactly its bytes are
+consumed, and the decoded message stands for exactly `p`. -/
+theorem C04_decode_accepts_wf_any_length (p : Wire.Packet) (hwf : Wire.WF p) (bs : Bytes) (h : Wire.Encodes bs p)
+    (rest : Bytes) :
+    ∃ d, decodeNew p.type (bs ++ rest) = .ok d ∧ d.n = bs.length ∧ absMsg d.msg = p :=
+  accepts_encodes p hwf bs h rest
+
+/-- PUBACK 1 with the remaining length 2 written `82 00` -/
+example : Wire.Encodes [0x40, 0x82, 0x00, 0x00, 0x01] (.puback 1) := ⟨[0x82, 0x00], by decide, rfl⟩
+
 /-! ### Non-vacuity: the decoders do succeed and do fail. -/
 
 /-- a well-formed CONNECT with will, user name and (empty) password -/
@@ -75,6 +128,16 @@ example : decodeNew 1 [] = .err := by decide
 example : decodeNew 4 [0x40, 0x00] = .err := by decide
 example : decodeNew 10 [0xa2, 0x80, 0xff, 0x91, 0xe7, 0xff, 0xea, 0x82, 0x80, 0x80, 0xff, 0x80, 0x01] = .err := by decide
 example : decodeNew 3 [0x30, 0x03, 0x00, 0x09, 0x61, 0x62, 0x63, 0x64] = .err := by decide
+
+/-- … with the counts the Go code returns: 0 (nothing read), 2 (the fixed header), 1 (the type/flags byte:
+`binary.Uvarint` failed), 4 (header and the two length bytes of the topic) -/
+example : decodeNewErrN 1 [] = 0 ∧ decodeNewErrN 4 [0x40, 0x00] = 2 ∧
+    decodeNewErrN 10 [0xa2, 0x80, 0xff, 0x91, 0xe7, 0xff, 0xea, 0x82, 0x80, 0x80, 0xff, 0x80, 0x01] = 1 ∧
+    decodeNewErrN 3 [0x30, 0x03, 0x00, 0x09, 0x61, 0x62, 0x63, 0x64] = 4 := by decide
+
+/-- the reference decoder on the PUBLISH above (followed by the two bytes of the next packet) -/
+example : Wire.decode 3 [0x32, 0x09, 0x00, 0x03, 0x61, 0x2f, 0x62, 0x00, 0x07, 0x68, 0x69, 0xc0, 0x00] =
+    some (.publish false 1 false [0x61, 0x2f, 0x62] 7 [0x68, 0x69], 11) := by decide
 
 /-! ## Tie to the Go source: the remaining-length decoder
 
